@@ -161,16 +161,59 @@ _KNOWN = None
 _ALL = False
 
 
+def _marker(pid):
+    return os.path.join(scratch_dir(), "running-%d" % pid)
+
+
 def _worker_run(args):
     idx, family, params = args
     acc = Acc(_MOD.ID, _KNOWN, stop_at_first=not _ALL)
+    # leave a note saying which block this process is executing: if the library kills the interpreter (a segmentation fault in a kernel), the
+    # parent finds the note of a process that no longer exists - a multiprocessing.Pool would otherwise wait for the lost result for ever
+    mk = _marker(os.getpid())
+    try:
+        with open(mk, "w") as f:
+            f.write(str(idx))
+    except OSError:
+        mk = None
     try:
         _MOD.run_block(family, params, acc)
     except StopBlock:
         pass
     except Exception:
         return idx, {"error": "block %s %r crashed:\n%s" % (family, params, traceback.format_exc())}
+    finally:
+        if mk:
+            try:
+                os.remove(mk)
+            except OSError:
+                pass
     return idx, acc.result()
+
+
+def _dead_workers():
+    """Block indices whose worker process no longer exists."""
+    out = []
+    try:
+        names = os.listdir(scratch_dir())
+    except OSError:
+        return out
+    for n in names:
+        if not n.startswith("running-"):
+            continue
+        pid = int(n.split("-")[1])
+        try:
+            os.kill(pid, 0)
+            alive = open("/proc/%d/stat" % pid).read().split(")")[-1].split()[0] != "Z"
+        except (OSError, IndexError):
+            alive = False
+        if not alive:
+            try:
+                out.append(int(open(os.path.join(scratch_dir(), n)).read().strip()))
+                os.remove(os.path.join(scratch_dir(), n))
+            except (OSError, ValueError):
+                pass
+    return out
 
 
 def merge(results):
@@ -215,7 +258,28 @@ def run_blocks(mod, blocks, all_violations=False, nproc=None):
             pending = {}
             nxt = 0
             stop = False
-            for i, r in pool.imap_unordered(_worker_run, tasks, chunksize=1):
+            it = pool.imap_unordered(_worker_run, tasks, chunksize=1)
+            ndone = 0
+            while ndone < len(tasks):
+                try:
+                    i, r = it.next(timeout=5)
+                except multiprocessing.TimeoutError:
+                    dead = _dead_workers()
+                    if not dead:
+                        continue
+                    # the interpreter of a worker was killed while it executed this block: the library crashed it
+                    i = min(dead)
+                    fam, params = blocks[i]
+                    r = {"evaluations": 0, "nontrivial": 0, "outcomes": set(), "known_hits": {}, "counters": {}, "samples": [],
+                         "violations": [{"property": mod.ID, "site": "crash:%s" % fam, "case": {"crash_block": [fam, jsonable(params)]},
+                                         "detail": "the worker process executing block %s %r was killed (a fatal signal such as a segmentation fault inside the library): no Python exception, the interpreter died" % (fam, params)}]}
+                    # nothing after a crash is trusted: report it as the first violation
+                    results = [None] * len(tasks)
+                    results[0] = r
+                    break
+                except StopIteration:
+                    break
+                ndone += 1
                 if "error" in r:
                     err = r["error"]
                     break
